@@ -182,6 +182,19 @@ def pipeline(tier):
         for p in rnd.sample(sorted(paths), rnd.randrange(1, min(3, len(paths)) + 1)):
             roots.append("%s/%d" % (p, rnd.choice(paths[p])))
         c = {"id": "rich-%d" % i, "u": {"req": req}, "roots": roots, "ops": rich_ops(rnd, paths)}
+        if i % 3 == 0:
+            # release candidates promoted as they were: the pre-release tag and the release tag sit on
+            # one commit (same requirements); a ref that names that commit resolves to the release
+            cot = [(p, n) for p, ns in paths.items() for n in ns if n % 10 in (7, 8, 9) and (n // 10 + 1) * 10 in ns]
+            if cot:
+                for p, n in cot:
+                    req["%s/%d" % (p, n)] = list(req["%s/%d" % (p, (n // 10 + 1) * 10)])
+                c["u"]["cotag"] = ["%s/%d" % (p, n) for p, n in cot]
+                for op in c["ops"]:
+                    if op["kind"] == "get" and op["q"]["kind"] == "ref" and (op["path"], op["q"]["n"]) in cot:
+                        op["q"]["n"] = (op["q"]["n"] // 10 + 1) * 10
+                for p, n in cot[:2]:
+                    c["ops"].append({"kind": "get", "path": p, "q": {"kind": "ref", "n": (n // 10 + 1) * 10}})
         if i % 2:
             c["host"] = "github"      # one repository of a well-known hosting service holding all projects
         cases.append(c)
